@@ -166,7 +166,7 @@ InitResolve ==
     \E w \in (IF Plain(o) THEN WKs ELSE {WKDistinct}) :
     LET readsO == Plain(o) /\ ~(Honoured(w) /\ w.target.valid)
         readsD == Plain(o) /\ Honoured(w) /\ Plain(w.target)
-        full == Depth = "thorough" /\ Plain(o) /\ w.size = "small"
+        full == Depth = "thorough" /\ Plain(o) /\ w.size = "small" /\ ~(Honoured(w) /\ ~w.target.valid)
         slim == Depth = "quick" /\ Honoured(w) /\ ~w.target.valid /\ w.target \notin {Inv(hp) : hp \in CoreInvDeleg}
     IN
     \E of \in (IF slim THEN {"nx", "one", "err"} ELSE IF readsO \/ full THEN SrvKinds ELSE {"one"}),
